@@ -95,6 +95,10 @@ def check_standardize_uri(cx: Cx, ob: Ob) -> None:
         ck = component(key)
         if ck is None or ck[0] != R or ck[1] != 0:
             ob.violate(fn.qualname, where(fn, line), f"prefix_map looked up with `{show(key)[:60]}`, not the parsed prefix", detail="lookup-key")
+            continue
+        from .c01 import success_conditions
+
+        success_conditions(ob, fn, ctx, R, line)
     if not found:
         ob.undecide("standardize_uri has no success return")
 
@@ -117,3 +121,32 @@ def x3(cx: Cx, ob: Ob) -> None:
     from ..rules import cached_derivations
 
     cached_derivations(cx, ob)
+
+
+@obligation("C03-L7", "MODE tail shape of compress / expand / standardize_curie / standardize_uri: the unmodified input is returned only under passthrough, None only in the default mode, success values identical in all modes (a shortcut that echoes its input bypasses standardisation)", floor=12)
+def l7(cx: Cx, ob: Ob) -> None:
+    from .c08 import check_tails
+
+    check_tails(cx, ob, ["compress", "expand", "standardize_curie", "standardize_uri"])
+
+
+@obligation("C03-L8", "LOOKUP: parse_uri fails only in the trie's KeyError handler - every URI that has a registered prefix parses, including the bare prefix that expand produces for an empty identifier", floor=1)
+def l8(cx: Cx, ob: Ob) -> None:
+    from .c01 import check_parse_uri_lookup
+
+    check_parse_uri_lookup(cx, ob)
+
+
+@obligation("C03-X5", "pairing (shared with C05-D4): every normally returning path of add_record merges or appends and then unconditionally re-indexes the changed record, so the lookup tables never lag behind the records", floor=2)
+def x5(cx: Cx, ob: Ob) -> None:
+    from .c05 import check_add_record_pairing
+
+    check_add_record_pairing(cx, ob)
+
+
+@obligation("C03-X6", "LOOKUP None-discipline (shared with C02-D3): lookup results and str|None results are tested with `is None`, never by truthiness - the empty prefix, the empty URI prefix and the empty identifier are legitimate values", floor=40)
+def x6(cx: Cx, ob: Ob) -> None:
+    from ..rules import scan_none_discipline
+    from .c02 import none_scope
+
+    scan_none_discipline(cx, ob, none_scope(cx))
